@@ -250,6 +250,8 @@ func (c *Ctx) witnessStr(w []ssa.Instruction) string {
 
 var wrapHelpers = map[string]bool{
 	"fmt.Errorf": true, "errors.New": true,
+	// gRPC status errors are built with non-OK codes throughout the repository
+	"google.golang.org/grpc/status.Errorf": true, "google.golang.org/grpc/status.Error": true,
 	"embedded/store.(*ImmuStore).wrapAppendableErr": true,
 }
 
